@@ -26,13 +26,15 @@ def run(ctx):
     n = 6000 if ctx.quick() else 80000
     tc.run_stream(ctx, "tensor-fw-naive", FW, n, backend="naive",
                   exhaustive_ops=("sum_fw", "max_fw", "flip_fw", "argmax") if ctx.quick() else ("sum_fw", "max_fw", "min_fw", "flip_fw", "argmax", "argmin"))
+    # the documented value is the same on every backend: the forward stream also on devices::Eigen
+    tc.run_stream(ctx, "tensor-fw-eigen", FW, n // 2, backend="eigen")
     tc.optional_part(ctx, "scalar", "run_part", "C02")
     big_padding_probe(ctx)
     tc.optional_part(ctx, "composites", "run_part")
     summ = tc.optional_part(ctx, "progcheck", "run_mode", "conv", 4000 if ctx.quick() else 40000)
     if summ is not None:
         ctx.cov["conv_reference_oracle"] = {k: summ.get(k) for k in ("programs", "ok", "fail", "nontrivial", "wall_s")}
-    ctx.cov["rule"] = ("cases = calls of every modelled forward Device entry point on the Naive backend with shapes of depth 0..8 (size-1 axes anywhere), "
+    ctx.cov["rule"] = ("cases = calls of every modelled forward Device entry point on the Naive backend (and half as many on the Eigen backend) with shapes of depth 0..8 (size-1 axes anywhere), "
                        "axes below/at/beyond the depth and >= 8, batch 1 vs B on each operand, invalid arguments mixed in; data-movement kernels get index-identity "
                        "inputs (the output IS the kernel's dst<-src map), arithmetic kernels small integers (exact in float32), compared bitwise with the extracted "
                        "index-program model; non-trivial = distinct cases on which the implementation returns a value")
